@@ -57,7 +57,7 @@ func newReq(src int) *http.Request {
 
 // scenario: one thread per entry of sources; panics[i] makes thread i's handler panic.
 func scenario(prop string, limit int64, sources []int, panics []bool, bound int) *sched.Scenario {
-	name := fmt.Sprintf("connlimit/limit=%d/sources=%v/panics=%v", limit, sources, panics)
+	name := fmt.Sprintf("connlimit/limit=%d/sources=%v/panics=%v/bound=%d", limit, sources, panics, bound)
 	sc := &sched.Scenario{Name: name, Bound: bound, Info: map[string]any{"limit": limit, "sources": sources, "panics": panics}}
 	sc.New = func() *sched.Instance {
 		w := &world{prop: prop, limit: limit, sources: sources, panics: panics, status: make([]int, len(sources))}
@@ -167,10 +167,16 @@ func scenario(prop string, limit int64, sources []int, panics []bool, bound int)
 
 // Scenarios lists every (limit, source assignment, panic pattern) of the tier.
 func Scenarios(prop, tier string) []*sched.Scenario {
-	nthreads := 3
+	out := scenariosFor(prop, 3, -1)
 	if tier == "thorough" {
-		nthreads = 4
+		// four threads: the unbounded space has ~10^10 schedules per scenario; explored with at most 3 preemptions
+		out = append(out, scenariosFor(prop, 4, 3)...)
 	}
+	return out
+}
+
+// scenariosFor lists every (limit, source assignment, panic pattern) for n threads.
+func scenariosFor(prop string, nthreads, bound int) []*sched.Scenario {
 	var out []*sched.Scenario
 	for _, limit := range []int64{1, 2} {
 		// source assignments up to renaming: thread 0 is source a
@@ -192,7 +198,7 @@ func Scenarios(prop, tier string) []*sched.Scenario {
 				for i := range p {
 					p[i] = mask&(1<<i) != 0
 				}
-				out = append(out, scenario(prop, limit, a, p, -1))
+				out = append(out, scenario(prop, limit, a, p, bound))
 			}
 		}
 	}
@@ -207,8 +213,7 @@ func Run(tier string, sh lib.Shard, rep *lib.Report) {
 		rep.Property = prop
 	}
 	scs := Scenarios(prop, tier)
-	rep.Bounds["threads"] = map[string]int{"quick": 3, "thorough": 4}[tier]
-	rep.Bounds["preemption_bound"] = "unbounded (all interleavings)"
+	rep.Bounds["threads"] = "3 threads: unbounded (all interleavings); thorough adds 4 threads with at most 3 preemptions"
 	rep.Bounds["scenarios"] = len(scs)
 	rep.Rule = "stateless DFS over every interleaving of the request threads at the scheduling points (limiter lock acquisitions, in-handler yield, thread start/end) on the real ConnLimiter; limits {1,2}, sources {a,b}, every normal/panic pattern; a schedule is non-trivial when it contains at least one preemption"
 	rep.Assume("A3: sequential consistency between scheduling points (the race detector run of C09 covers unsynchronised accesses)")
